@@ -178,6 +178,16 @@ def _call_optimize(g, kw):
     """Call the real optimize() with keywords or - every other time, when all four documented parameters are given - positionally in the
     documented order (tol, max_iter, fix_first_pose, verbose): both are the public interface."""
     _CALLS[0] += 1
+    if _CALLS[0] % 5 == 3:
+        # arguments as they come out of other computations: numpy scalars and 0/1 integers instead of Python bool / int / float
+        kw = dict(kw)
+        if isinstance(kw.get("fix_first_pose"), bool):
+            kw["fix_first_pose"] = (np.bool_(kw["fix_first_pose"]) if _CALLS[0] % 2 else int(kw["fix_first_pose"]))
+        if isinstance(kw.get("max_iter"), int) and not isinstance(kw.get("max_iter"), bool):
+            kw["max_iter"] = np.int64(kw["max_iter"])
+        if isinstance(kw.get("tol"), float):
+            kw["tol"] = np.float64(kw["tol"])
+        ENV_COUNTS["numpy_scalar_arguments"] = ENV_COUNTS.get("numpy_scalar_arguments", 0) + 1
     if _CALLS[0] % 2 and set(kw) == {"tol", "max_iter", "fix_first_pose", "verbose"}:
         return g.optimize(kw["tol"], kw["max_iter"], kw["fix_first_pose"], kw["verbose"])
     return g.optimize(**kw)
@@ -244,16 +254,39 @@ def quiet_optimize(g, **kw):
     return _quiet_optimize(g, kw)
 
 
+PROCESS_LEAKS = []
+
+
+def process_state():
+    """Process-wide settings that library calls have no business changing: numpy's floating-point error mode and print options, the
+    interpreter's warning filters (count), the library loggers' levels."""
+    import logging
+
+    return {"np.geterr": dict(np.geterr()), "np.printoptions": {k: (v if not callable(v) else "callable") for k, v in np.get_printoptions().items()},
+            "warnings.filters": len(warnings.filters), "logging:graphslam": logging.getLogger("graphslam").level,
+            "logging:graphslam.graph": logging.getLogger("graphslam.graph").level}
+
+
 def _quiet_optimize(g, kw):
     with warnings.catch_warnings():
         warnings.simplefilter("ignore")
         with np.errstate(all="ignore"):
-            if kw["verbose"]:
-                buf = io.StringIO()
-                with contextlib.redirect_stdout(buf):
-                    r = _call_optimize(g, kw)
-                return r, buf.getvalue()
-            return _call_optimize(g, kw)
+            before = process_state()
+            try:
+                return _quiet_optimize_inner(g, kw)
+            finally:
+                after = process_state()
+                if after != before:
+                    PROCESS_LEAKS.append({k: [before[k], after[k]] for k in before if before[k] != after[k]})
+
+
+def _quiet_optimize_inner(g, kw):
+    if kw["verbose"]:
+        buf = io.StringIO()
+        with contextlib.redirect_stdout(buf):
+            r = _call_optimize(g, kw)
+        return r, buf.getvalue()
+    return _call_optimize(g, kw)
 
 
 def snapshot_poses(g):
